@@ -95,6 +95,45 @@ class Engine:
                 return str(r), (s2.model() if str(r) == "sat" else None)
         return "unknown", None
 
+    def _probe(self, assertions):
+        """After `unknown`: look for a counterexample on a small grid of values (halves, small integers, signs).
+
+        Every candidate is itself decided by the solver (a ground query); a hit is an ordinary `sat` with a model and
+        is replayed like any other. A miss leaves the answer `unknown` - probing never turns into a proof."""
+        consts = {}
+        stack = list(assertions)
+        seen = set()
+        while stack and len(seen) < 20000:
+            a = stack.pop()
+            if a.get_id() in seen:
+                continue
+            seen.add(a.get_id())
+            if z3.is_const(a) and a.decl().kind() == z3.Z3_OP_UNINTERPRETED and z3.is_real(a):
+                consts[a.get_id()] = a
+            else:
+                stack.extend(a.children())
+        vs = list(consts.values())
+        if not vs or len(vs) > 12:
+            return "unknown", None
+        grid = ["1/2", "3/2", "5/2", "-1/2", "0", "1", "2", "-1", "7/2", "1/4"]
+        cands = [[g] * len(vs) for g in grid]
+        for i in range(len(vs)):  # one variable off the diagonal
+            for g in ("1/2", "5/2", "-1/2"):
+                c = ["1"] * len(vs)
+                c[i] = g
+                cands.append(c)
+        for c in cands[:40]:
+            s2 = z3.Solver()
+            s2.set("timeout", 2000)
+            for a in assertions:
+                s2.add(a)
+            for v, g in zip(vs, c):
+                s2.add(v == z3.RealVal(g))
+            self.queries += 1
+            if str(s2.check()) == "sat":
+                return "sat", s2.model()
+        return "unknown", None
+
     def _check(self, *extra):
         self.queries += 1
         t0 = _time.time()
@@ -285,7 +324,9 @@ class Engine:
         r = str(s.check())
         self.solver_time += _time.time() - t0
         if r == "unknown" and timeout_ms is None:
-            r, m2 = self._retry(list(s.assertions()))
+            r, m2 = self._probe(list(s.assertions()))  # cheap ground queries first
+            if r == "unknown":
+                r, m2 = self._retry(list(s.assertions()))
             if r == "sat":
                 self.n_sat += 1
                 return r, m2
@@ -569,6 +610,25 @@ class SymReal:
 
     def __abs__(s):
         return SymReal(z3.If(s.t >= 0, s.t, -s.t))
+
+    # integer-valued functions (values stay reals: mxlpy only ever multiplies them into rates)
+    def __floor__(s):
+        return SymReal(z3.ToReal(z3.ToInt(s.t)))
+
+    def __ceil__(s):
+        return SymReal(-z3.ToReal(z3.ToInt(-s.t)))
+
+    def __trunc__(s):
+        return SymReal(z3.If(s.t >= 0, z3.ToReal(z3.ToInt(s.t)), -z3.ToReal(z3.ToInt(-s.t))))
+
+    def __round__(s, ndigits=None):
+        # Python / numpy round halves to the nearest even integer
+        if ndigits not in (None, 0):
+            raise LiftError("round with ndigits")
+        n = z3.ToInt(s.t)
+        frac = s.t - z3.ToReal(n)
+        half = z3.RealVal("1/2")
+        return SymReal(z3.If(frac < half, z3.ToReal(n), z3.If(frac > half, z3.ToReal(n) + 1, z3.If(n % 2 == 0, z3.ToReal(n), z3.ToReal(n) + 1))))
 
     def __pow__(s, o, mod=None):
         n = _int_like(o)
